@@ -12,6 +12,7 @@ inductive Err where
   | ffi       -- cffi.FFIError ("unsupported expression", "multiple declarations of constant")
   | value     -- ValueError escaping from `int(s, 16)` / `int(s, 2)` inside the `except` block
   | index     -- IndexError of `s[0]` on an empty token (unreachable from pycparser)
+  | overflow  -- OverflowError / MemoryError of `left << right` with a count Python cannot materialise
   deriving DecidableEq, Repr, Inhabited
 
 deriving instance DecidableEq for Except
@@ -50,5 +51,16 @@ abbrev pyMod (a b : Int) : Int := a.fmod b
 /-- Python's `a << b` and `a >> b` for `b ≥ 0` (the evaluator guards `b < 0` itself). -/
 abbrev pyShl (a b : Int) : Int := a * 2 ^ b.toNat
 abbrev pyShr (a b : Int) : Int := a >>> b.toNat
+
+/-- Counts above this bound are not materialised: `left << right` then answers `overflow`, as
+CPython does (OverflowError / MemoryError) once the result cannot be allocated.  The exact
+CPython threshold depends on the memory of the machine; between 4096 and that threshold the
+model deviates (CPython still computes the number).  Such counts are undefined in C (>= the
+width of any integer type), so no C09 theorem covers them and the harness never generates them. -/
+def shiftBound : Int := 4096
+
+/-- `left << right` inside `_parse_constant` (`right ≥ 0` was checked by the caller). -/
+def pyShlChecked (a b : Int) : Except Err Int :=
+  if b > shiftBound then .error .overflow else .ok (a * 2 ^ b.toNat)
 
 end CffiVerif.ConstExpr
